@@ -52,11 +52,17 @@ fn fast_gnp_random_graph_directed(
     }
     let mut w: i32 = -1;
     let lp = (1.0 - edge_probability).ln();
+    if lp == 0.0 {
+        // `edge_probability` is so small that `1.0 - edge_probability` rounds to 1.0:
+        // no edge is ever drawn (and `lr / lp` would not be a valid skip length)
+        return Ok(graph);
+    }
     let mut v = 0;
     let mut edges = vec![];
     while v < num_nodes {
         let lr: f64 = (1.0_f64 - rng.gen::<f64>()).ln();
-        w = w + 1 + ((lr / lp) as i32);
+        // the skip length saturates at i32::MAX for very small probabilities
+        w = w.saturating_add(1).saturating_add((lr / lp) as i32);
         if v == w {
             w += 1;
         }
@@ -88,11 +94,17 @@ fn fast_gnp_random_graph_undirected(
     }
     let mut w: i32 = -1;
     let lp = (1.0 - edge_probability).ln();
+    if lp == 0.0 {
+        // `edge_probability` is so small that `1.0 - edge_probability` rounds to 1.0:
+        // no edge is ever drawn (and `lr / lp` would not be a valid skip length)
+        return Ok(graph);
+    }
     let mut v = 1;
     let mut edges = vec![];
     while v < num_nodes {
         let lr: f64 = (1.0_f64 - rng.gen::<f64>()).ln();
-        w = w + 1 + ((lr / lp) as i32);
+        // the skip length saturates at i32::MAX for very small probabilities
+        w = w.saturating_add(1).saturating_add((lr / lp) as i32);
         while w >= v && v < num_nodes {
             w -= v;
             v += 1;
